@@ -1236,9 +1236,81 @@ func runSched(c caseIn) *caseOut {
 	return out
 }
 
+// runCollide: code-string collisions.  The real CreateConnectionCode / GenerateUnique over a code space of FOUR strings
+// ("a-a" .. "b-b": the generator's randomness is adversarial — every draw is likely to hit a live code): four creators get
+// four distinct strings, a live string is never issued again (also after its code was revoked / used: the record is still
+// there), a live by-code record keeps naming its own creator, the fifth create is refused, and the first code still
+// activates into a mapping for ITS creator's client and address.
+func runCollide(c caseIn) *caseOut {
+	out := &caseOut{Claim: hasClaim(), Cleanup: hasCleanup(), Admit: hasAdmit(), Viol: []viol{}, Sched: []int{}, Threads: []thrOut{},
+		Mains: [][]int64{}, Glob: []int{}, Cidx: [][]int64{}, ByCode: []int64{}, ByID: []int64{}}
+	add := func(kind, f string, a ...any) { out.Viol = append(out.Viol, viol{kind, fmt.Sprintf(f, a...)}) }
+	ctx, cancel := context.WithCancel(context.Background())
+	defer cancel()
+	raw := memory.New(ctx)
+	sk := newStack(ctx, raw, raw, 50)
+	sk.svc.VerifSetGenerator(&models.ConnectionCodeGenerator{SegmentLength: 1, SegmentCount: 2, Separator: "-", Charset: "ab"})
+	type issued struct {
+		code   string
+		target int64
+		taddr  string
+	}
+	var live []issued
+	for k := 0; k < 5; k++ {
+		target, taddr := int64(71+k), targetAddrs[k%len(targetAddrs)]
+		cc, err := sk.svc.CreateConnectionCode(&services.CreateConnectionCodeRequest{TargetClientID: target, TargetAddress: taddr,
+			ActivationTTL: 10 * time.Minute, MappingDuration: time.Hour, CreatedBy: "verif"})
+		if k == 4 {
+			if err == nil {
+				add("code-string-reissued", "a fifth code (%q) was issued although all four strings of the code space are live", cc.Code)
+			}
+			break
+		}
+		if err != nil {
+			add("create-failed", "create #%d failed although a free string exists: %v", k, err)
+			continue
+		}
+		for _, l := range live {
+			if l.code == cc.Code {
+				add("code-string-reissued", "create #%d (target %d) was issued %q, which is the live code of target %d", k, target, cc.Code, l.target)
+			}
+		}
+		live = append(live, issued{cc.Code, target, taddr})
+		switch c.State { // the first code is revoked / used before the others are created: its record (and string) stay live
+		case "revoked":
+			if k == 0 {
+				must(sk.svc.RevokeConnectionCode(cc.Code, "verif"))
+			}
+		case "activated":
+			if k == 0 {
+				_, err := sk.svc.ActivateConnectionCode(&services.ActivateConnectionCodeRequest{Code: cc.Code, ListenClientID: 999001, ListenAddress: "0.0.0.0:9999"})
+				must(err)
+			}
+		}
+	}
+	for _, l := range live {
+		rec, err := sk.svc.GetConnectionCode(l.code)
+		if err != nil || rec.TargetClientID != l.target || rec.TargetAddress != l.taddr {
+			add("live-code-overwritten", "the record of live code %q no longer names its creator (target %d %q): %+v / %v", l.code, l.target, l.taddr, rec, err)
+		}
+	}
+	if c.State == "valid" && len(live) > 0 {
+		m, err := sk.svc.ActivateConnectionCode(&services.ActivateConnectionCodeRequest{Code: live[0].code, ListenClientID: 101, ListenAddress: listenAddrs[0]})
+		if err != nil {
+			add("create-failed", "the first code could not be activated: %v", err)
+		} else if m.TargetClientID != live[0].target || m.TargetAddress != live[0].taddr {
+			add("mapping-shape", "the first creator's code (target %d %q) produced a mapping for target %d %q", live[0].target, live[0].taddr, m.TargetClientID, m.TargetAddress)
+		}
+	}
+	return out
+}
+
 func runCase(rawMsg json.RawMessage) interface{} {
 	var c caseIn
 	must(json.Unmarshal(rawMsg, &c))
+	if c.World == "collide" {
+		return runCollide(c)
+	}
 	return runSched(c)
 }
 
